@@ -2,6 +2,7 @@ package ftdc
 
 import (
 	"context"
+	"github.com/mongodb/ftdc/verifhook"
 
 	"github.com/evergreen-ci/birch"
 	"github.com/mongodb/ftdc/util"
@@ -71,6 +72,7 @@ func (iter *combinedIterator) worker(ctx context.Context) {
 		metadata := chunk.GetMetadata()
 
 		for iter.sample.Next() {
+			verifhook.Point("combined.send")
 			select {
 			case iter.pipe <- iteratorItem{document: iter.sample.Document(), metadata: metadata}:
 				continue
@@ -83,5 +85,6 @@ func (iter *combinedIterator) worker(ctx context.Context) {
 		iter.catcher.Add(iter.sample.Err())
 		iter.sample.Close()
 	}
+	verifhook.Point("combined.end")
 	iter.catcher.Add(iter.chunks.Err())
 }
